@@ -245,6 +245,16 @@ def sh_dyn(S):
     S.headers(c, h, fin=True)
 
 
+def sh_dyn_many(S):
+    """As many concurrent messages as the receiver allows to wait for the encoder stream
+    (SETTINGS_QPACK_BLOCKED_STREAMS = 16) and one more: all of them written before anything is acknowledged,
+    so each may reference the insert the first one caused."""
+    S.prime()
+    opened = [_open(S, post=False) for _ in range(17)]
+    for sid, h in opened:
+        S.headers(sid, opened[0][1], fin=True)
+
+
 def sh_dyn_body_trailers(S):
     S.prime()
     a, h = _open(S)
@@ -520,6 +530,7 @@ SHAPES = [
     Shape(sh_push_after_body, "push_promise_and_push_stream", roles=("server",), quick=False),
     Shape(sh_push_promise_last, "push_promise_last_frame", roles=("server",), quick=False),
     Shape(sh_dyn, "dynamic_table", pair=True),
+    Shape(sh_dyn_many, "dynamic_table_many_blocked", roles=("client",)),
     Shape(sh_dyn_body_trailers, "dynamic_table", quick=False, pair=True),
     Shape(sh_dyn_trailers_min, "dynamic_table", pair=True, pair_quick=True),
     Shape(sh_dyn_acked, "dynamic_table", quick=False, pair=True),
